@@ -101,6 +101,11 @@ def opsExpGram : List (String × Handler) := [
     let q ← pNat; let d ← pNat
     let z ← pRat; pEnd
     pure (showMat (driftOf q d (maternBottom q d z)))),
+  -- general exponential prior: bottom block = Jacobian of the (linear) autonomous vector field
+  ("exp_drift_general", do
+    let q ← pNat; let d ← pNat
+    let bottom ← pMat d ((q+1)*d); pEnd
+    pure (showMat (driftOf q d bottom))),
   ("exp_dispersion", do
     let q ← pNat; let d ← pNat
     let lam ← pVec d; pEnd
